@@ -170,6 +170,12 @@ func checkProperty(pd *propDef, repo, tier string, seed int, controls bool, star
 		fmt.Printf("VIOLATION property=%s replay=%s\n", pd.id, path)
 		exit = 1
 	}
+	if len(renameNotes) > 0 && len(newViol)+len(undec) > 0 {
+		fmt.Printf("note: keys below use the names of the confirmed tree; %d renamed entities were mapped back:\n", len(renameNotes))
+		for _, n := range renameNotes {
+			fmt.Println("  " + n)
+		}
+	}
 	for _, ob := range newViol {
 		emit(ob, "violated")
 	}
